@@ -298,7 +298,7 @@ def run_fs(desc):
     seg = A.st_seq(max_budget=3, max_depth=1, max_alts=2, alphabet='abAdx1.[]*', posix=False, ranges=False)
     pat = st.lists(st.one_of(seg, seg, st.just(A.GS)), min_size=1, max_size=3)
     gflags = [G.GLOBSTAR, G.DOTGLOB, G.EXTGLOB, G.MARK, G.NODIR, G.MATCHBASE, G.BRACE, G.SPLIT, G.NEGATE, G.IGNORECASE, G.SCANDOTDIR,
-              G.NOUNIQUE, G.FOLLOW]
+              G.NOUNIQUE, G.FOLLOW, G.GLOBSTARLONG]
     wflags = [WM.RECURSIVE, WM.HIDDEN, WM.SYMLINKS, WM.FILEPATHNAME, WM.DIRPATHNAME, WM.MATCHBASE, WM.GLOBSTAR, WM.EXTMATCH, WM.IGNORECASE]
     for ti, spec in enumerate(FS_TREES):
         with FC.built_tree(spec) as (root, _removed):      # deep sandbox: `..` segments of generated patterns stay inside it
@@ -314,6 +314,27 @@ def run_fs(desc):
                             for n2_ in sorted(os.listdir(os.path.join(b_, n_)))[:3]:
                                 cands.append(rel_ + '/' + n2_)
             cands.sort()
+            # every subset of the flags that decide how far a crawl reaches x a fixed list of patterns: bytes and str results agree
+            reach = [G.GLOBSTAR, G.GLOBSTARLONG, G.FOLLOW, G.MATCHBASE, G.DOTGLOB, G.NODIR]
+            for i_ in range(64):
+                fl_ = 0
+                for j_, bit_ in enumerate(reach):
+                    if i_ >> j_ & 1:
+                        fl_ |= bit_
+                for t_ in ('*', 'a', 'a*', '**', '***', '*/', '**/a', '***/a', 'd/**', '*/a', '.*', 'x1', 'ld/**', '**/', '[ab]*'):
+                    try:
+                        with util.watchdog(6), util.ScandirCounter(3000):
+                            sa_ = G.glob(t_, flags=fl_, root_dir=root)
+                            sb_ = G.glob(enc(t_), flags=fl_, root_dir=broot)
+                    except util.HarnessBudget:
+                        out.stats['watchdog_skipped'] += 1
+                        continue
+                    out.evaluations += 1
+                    if [os.fsencode(x) for x in sa_] != sb_:
+                        out.violation({'mode': 'fs', 'api': 'glob', 'pattern': [t_], 'flags': fl_, 'tree': ti, 'str': sa_[:8], 'bytes': [x.decode('latin-1') for x in sb_[:8]],
+                                       'problem': 'bytes result differs from str result (as sequences)'}, size=len(t_) * 10, bucket=('fs-reach', t_))
+                    elif sa_ and i_ & 15:
+                        out.nontrivial(('fs-reach', ti, t_, fl_))
 
             @seed(desc['seed'] + ti)
             @util.hyp_settings(desc['n'], shrink=False)
